@@ -29,6 +29,7 @@ type HarnessSpec struct {
 	TimeoutT  int            `json:"timeout_thorough,omitempty"`
 	Note      string         `json:"note,omitempty"`
 	Optional  bool           `json:"optional,omitempty"` // white-box harness: skipped when it does not compile against the tree
+	BestEffort bool          `json:"best_effort,omitempty"` // beyond-the-bound supplement: an unfinished exploration is recorded, not INCONCLUSIVE
 }
 
 type CheckSpec struct {
@@ -327,6 +328,7 @@ func cmdCheck(args []string) int {
 	nr := &nativeRunner{}
 	defer nr.cleanup()
 	validated := 0
+	var bestEffortNotes []string
 	var confirmed []*Violation
 	confirmHow := map[string]string{}
 	for _, hs := range spec.Harnesses {
@@ -359,11 +361,26 @@ func cmdCheck(args []string) int {
 		res := g.Explore(hs.Fn, params, nworkers, time.Now().Add(time.Duration(tmo)*time.Second), maxW)
 		results = append(results, res)
 		fmt.Fprintf(os.Stderr, "[%s] %s paths=%d ends=%v queries=%d wall=%v\n", prop, hs.Fn, res.Paths, res.Ends, res.Queries, res.Wall.Round(time.Millisecond))
+		if hs.BestEffort && res.TimedOut {
+			// a beyond-the-bound supplement that did not finish: what it explored counts, the rest is
+			// stated as not covered; it does not make the check inconclusive
+			var keep []string
+			for _, i := range res.Inconclusive {
+				if !strings.Contains(i, "did not finish") {
+					keep = append(keep, i)
+				}
+			}
+			res.Inconclusive = keep
+			bestEffortNotes = append(bestEffortNotes, fmt.Sprintf("%s %v: best-effort exploration stopped at its time cap after %d paths (partial)", hs.Fn, params, res.Paths))
+		}
 		for _, i := range res.Inconclusive {
 			inconc = append(inconc, hs.Fn+": "+i)
 		}
 		// vacuity
 		for _, c := range hs.Covers {
+			if hs.BestEffort && res.TimedOut {
+				break
+			}
 			if res.Covers[c] == 0 && len(res.Violations) == 0 {
 				inconc = append(inconc, hs.Fn+": vacuous: cover label never reached: "+c)
 			}
@@ -435,6 +452,7 @@ func cmdCheck(args []string) int {
 	for _, i := range inconc {
 		fmt.Printf("INCONCLUSIVE property=%s reason=%s\n", prop, i)
 	}
+	spec.Assumptions = append(spec.Assumptions, bestEffortNotes...)
 	writeEvidence(prop, tier, seed, results, spec, time.Since(t0), validated, inconc, nviol, matchedKnown)
 	if exit == 0 {
 		paths, q := 0, 0
